@@ -118,8 +118,11 @@ Report(id, n, c) == c[1] = "" \/ PrintT(<<"FAIL", id, n, c[1], c[2], c[3]>>)
 Bit(m, j) == (m \div (2 ^ (j - 1))) % 2 = 1
 AssumeOK(B, reg) ==
    \A e \in DOMAIN reg :
-      \/ \A m \in 0..(2 ^ B.nf - 1) : (m \in Range(B.engines[e].sup)) <=> ({j \in 1..B.nf : Bit(m, j)} \subseteq reg[e].feats)
-      \/ PrintT(<<"ASSUME", B.id, e>>)
+      LET S == Range(B.engines[e].sup)
+          FU == reg[e].feats \cap (1..B.nf)
+      IN \/ /\ Cardinality(S) = 2 ^ Cardinality(FU)      \* as many kinds as FU has subsets ...
+            /\ \A m \in S : \A j \in 1..B.nf : Bit(m, j) => j \in FU     \* ... and each one is a subset
+         \/ PrintT(<<"ASSUME", B.id, e>>)
 
 \* vacuity evidence over the requests of the batch's first preference list: which clauses of
 \* Qualifies excluded an engine that implements the requested mode (or "mode" itself), and
